@@ -122,7 +122,7 @@ func init() {
 	skeletonTargets = append(skeletonTargets,
 		skelTarget{Name: "CalculateDelayWithMax", File: "pkg/utils/exponential_backoff/delay.go", Recv: "", Func: "CalculateDelayWithMax",
 			Calls: []string{"Pow", "Int64N", "Truncate", "Nanoseconds", "Duration", "int64", "float64"}},
-		skelTarget{Name: "ShellOperator.taskHandleHookRun", File: "pkg/shell-operator/operator.go", Recv: "ShellOperator", Func: "taskHandleHookRun",
+		skelTarget{Name: "C04.taskHandleHookRun", File: "pkg/shell-operator/operator.go", Recv: "ShellOperator", Func: "taskHandleHookRun",
 			Fields: []string{"AllowFailure", "ExecuteOnSynchronization", "BindingContext", "MonitorIDs", "Status", "Version", "Group", "BindingType"},
 			Calls:  []string{"combineBindingContextForHook", "handleRunHook", "UpdateMetadata", "UnlockKubernetesEventsFor", "IsSynchronization", "RateLimitWait", "UpdateFailureMessage", "HookMetadataAccessor"}},
 	)
